@@ -176,11 +176,11 @@ theorem eq_distinguishes_sub (veq : Val → Val → Bool) (a b : Comp) (c : Comp
 
 /-- the multiset of subcomponents matters, not the set: `{e, e}` and `{e, f}` differ when
     `e` and `f` differ, although every subcomponent of the first occurs in the second -/
-theorem eq_distinguishes_multiplicity (veq : Val → Val → Bool) (hv : VEquiv veq) (n : Str) (p : List Entry)
+theorem eq_distinguishes_multiplicity (veq : Val → Val → Bool) (hr : ∀ v, veq v v = true) (n : Str) (p : List Entry)
     (e f : Comp) (we : Comp.WF e) (hef : compEq veq e f = false) :
     compEq veq (.mk n p [e, e]) (.mk n p [e, f]) = false := by
   rw [compEq_def]
-  have hee := eq_refl veq hv.refl e we
+  have hee := eq_refl veq hr e we
   simp [Comp.subs, greedy, removeFirst, hee, hef]
 
 /-- the structural value equality used by the driver is an equivalence relation, so the
